@@ -279,7 +279,7 @@ class Gef:
         want = 'true' if truth else 'false'
         hits = [g for (g, kind, text) in sub if text == want]
         if len(hits) != 1:
-            return []
+            return None     # a disjunction: keep the call as the test it is (dropping it would hide which argument it tests)
         argt = {'<P%d>' % (i + 1): self.term(a) for i, a in enumerate(d.args)}
         return [(norm_eq(subst(ct, argt)), tr) for ct, tr in hits[0]]
 
